@@ -242,17 +242,25 @@ func (r *schemaLoader) deref(input interface{}, parentRefs []string, basePath st
 		return nil
 	}
 
+	previous := *ref
 	if err := r.resolveRef(ref, input, basePath); r.shouldStopOnError(err) {
 		return err
 	}
 
-	if ref.String() == "" || ref.String() == curRef {
-		// done with rereferencing
+	if ref.String() == "" {
 		return nil
 	}
 
+	if ref.String() == curRef {
+		// done with rereferencing: keep the canonical $ref, so the caller knows
+		// which document the result was resolved from
+		*ref = *normalizedRef
+		return nil
+	}
+
+	// the next $ref is relative to the document we have just hopped to
 	parentRefs = append(parentRefs, normalizedRef.String())
-	return r.deref(input, parentRefs, normalizedBasePath)
+	return r.transitiveResolver(basePath, previous).deref(input, parentRefs, normalizedBasePath)
 }
 
 func (r *schemaLoader) shouldStopOnError(err error) bool {
